@@ -14,6 +14,8 @@ import numpy as np
 from vlib.oracles import packing as po
 from vlib.workloads import binpack as wb
 
+INT64_MAX = 2 ** 63 - 1
+
 _DESC_CACHE: dict[int, tuple[Any, dict]] = {}
 
 
@@ -124,7 +126,8 @@ class PackingMonitor:
         want = po.objective_values(desc, rows)[key]
         if result != want or isinstance(result, bool):
             ctx.violation(
-                f"objective-value:{key}",
+                (f"objective-value-beyond-int64:{key}" if want > INT64_MAX
+                 else f"objective-value:{key}"),
                 f"{key}.evaluate returned {result}, documented value {want}",
                 {"kind": "objective", "desc": desc, "rows": rows,
                  "objective": key})
